@@ -84,6 +84,34 @@ PROPS = {
         "level_note": "Trusted: abstract Store contract (proved for the concrete stores in C01 except Memory.remove), "
                       "stored-context-object model of Store.contexts, PyVC/z3/cvc5.",
     },
+    "C18": {
+        "modules": ["contracts.c18_auditable"],
+        "claim_level": "other",
+        "design_ref": "6.18",
+        "technique": TECH,
+        "clauses_decided": [
+            "AuditableStore.add: set effect on the wrapped store and preservation of the transaction invariant RI_tx "
+            "(one log entry per quad; 'remove' entries = quads added, 'add' entries = quads removed since the "
+            "transaction began; unlogged quads untouched) incl. re-adding a removed quad and no-op adds (proved)",
+            "AuditableStore.rollback: from RI_tx, the loop over the undo log establishes G == S0 (content at "
+            "transaction start) and empties the log, so a further rollback changes nothing (proved, loop invariant)",
+            "AuditableStore.commit keeps the content and empties the log; AuditableStore.triples answers as the "
+            "wrapped store (proved)",
+        ],
+        "clauses_not_decided": [
+            "AuditableStore.remove (wildcard loops over context.triples / ConjunctiveGraph.quads with list "
+            "cancel-or-append): invariant written, obligations exceed the solver budget -> bounded stand-in only "
+            "(thorough tier attempts the proof)",
+            "two-wrapper interleavings: bounded stand-in only; real threads not modelled (A4)",
+        ],
+        "explanation": "RI_tx relates the undo log, the wrapped store's quad view and the ghost snapshot S0; add and "
+                       "rollback/commit are proved against it on the real code; remove is bounded.",
+        "assumptions": A_COMMON,
+        "level_text": "Deductive proof of add/rollback/commit/triples against the transaction invariant; remove and the "
+                      "two-wrapper clause by exhaustive small scope (bounded), hence category 'other'.",
+        "level_note": "Trusted: abstract Store contract of the wrapped store, Graph/ConjunctiveGraph contracts (C01/C02), "
+                      "array-list model of Python lists (append/remove/iteration), locks as no-ops.",
+    },
     "C17": {
         "modules": ["contracts.c17_store"],
         "claim_level": "proof",
